@@ -21,6 +21,16 @@ import (
 //@   pure
 //@ extern func time.UnixMicro(usec int64) (t time.Time)
 //@   pure
+// The accessors of time.Time that return the count of a unit since the epoch: deterministic
+// functions of the instant about which nothing else is assumed.
+//@ extern func (t time.Time) Unix() (v int64)
+//@   pure
+//@ extern func (t time.Time) UnixMilli() (v int64)
+//@   pure
+//@ extern func (t time.Time) UnixMicro() (v int64)
+//@   pure
+//@ extern func (t time.Time) UnixNano() (v int64)
+//@   pure
 
 var (
 	_ = strconv.FormatInt
